@@ -15,6 +15,8 @@ fn task_hook(sim: &Sim, task: &str) -> Result<(), Bad> {
     if let Some(ca) = task.strip_prefix("sync_repo_") {
         oracle::check_no_overclaim(sim, ca)?;
     }
+    // whatever this task issued is judged against the entitlements as they are now
+    oracle::check_issued_within_entitlement(sim)?;
     Ok(())
 }
 
@@ -53,10 +55,15 @@ impl Prop for C02 {
         let mut checks = 0usize;
         let mut overclaim_checked = 0usize;
         let mut installed = false;
+        let mut issuance_judged = 0usize;
         let res = super::run_wcase(case, |sim, op, _setup| {
             if !installed {
                 sim.task_hook = Some(task_hook);
                 installed = true;
+            }
+            // whatever this operation issued is judged against the entitlements as they are now
+            if sim.w.is_some() {
+                issuance_judged += oracle::check_issued_within_entitlement(sim)?;
             }
             if !matches!(op, Op::Check) {
                 return Ok(());
@@ -116,6 +123,9 @@ impl Prop for C02 {
                 }
                 if overclaim_checked > 0 {
                     classes.push("exactness_checked".into());
+                }
+                if issuance_judged > 0 {
+                    classes.push("issuance_judged_after_operation".into());
                 }
                 let nontrivial = overclaim_checked > 0 && (f.has("entitlement_shrunk") || regain || f.has("child_unsuspended"));
                 classes.push(format!("checks:{}", checks.min(6)));
